@@ -67,7 +67,7 @@ func runC10(c *Ctx) {
 				if cal == nil || cal.Pkg != f.Pkg || cal.Signature.Recv() == nil || !isNamed(cal.Signature.Recv().Type(), "ctree", "Tree") || len(ev.Args) == 0 {
 					return
 				}
-				self := RV{root, f.Params[0]}
+				self := RV{root, param(f, 0)}
 				if ev.Args[0] == self || fresh(ev.Args[0]) {
 					return // same node (helper) or unpublished node
 				}
